@@ -43,8 +43,8 @@ def run(tier, seed, replay=None):
     r.gen_validate("random-attrs", ["meta", "--n", 3000 if q else 50000], "Trace_Meta.tla", "Trace_Meta.cfg", N, classify, core.count_lines)
     env = {"PROP": "C19"}
     for (label, args, shards) in [
-        ("modes-enum-head", ["parse", "--mode", "enum", "--family", "meta", "--k", 3 if q else 4, "--pieces", 14], N),
-        ("modes-enum-1char", ["parse", "--mode", "enum", "--family", "meta", "--k", 2, "--pieces", 14, "--chunk", "chars"], N),
+        ("modes-enum-head", ["parse", "--mode", "enum", "--family", "meta", "--k", 2 if q else 3, "--pieces", 33], N),
+        ("modes-enum-1char", ["parse", "--mode", "enum", "--family", "meta", "--k", 2, "--pieces", 18, "--chunk", "chars"], N),
         ("random", ["parse", "--mode", "random", "--n", 800 if q else 10000, "--maxpieces", 14], N)]:
         r.gen_validate(label, args, "Trace_Sink.tla", "Trace_Sink.cfg", shards, classify, core.count_resets, env=env, timeout=5000)
     r.assumptions = ["labels are compared as written; whether a label names a supported encoding is the embedder's concern",
